@@ -98,7 +98,7 @@ def _same(ref_canon, got, mode, what):
 def _roundtrip_file(save, load, obj, d, name="o.json"):
     path = os.path.join(d, name)
     must(lambda: save(obj, path), "save")
-    json.load(open(path))
+    must(lambda: json.load(open(path)), "reading the saved file as JSON text")
     a = must(lambda: load(path), "load(path)")
     with open(path) as f:
         b = must(lambda: load(f), "load(open file)")
